@@ -229,7 +229,7 @@ pub fn run(ctx: &Ctx, st: &mut Stats) {
         st.mark_exhaustive("triples/grid", "year -1..=10001 + 8 extreme years x month 0..=14,u32::MAX x day 0..=33,u32::MAX");
     }
     // ordering / hashing on random pairs (consecutive pairs are part of days/all-in-range)
-    let npairs = ctx.tier.pick(2_000, 300_000, 3_000_000);
+    let npairs = ctx.tier.pick(2_000, 300_000, ctx.big(3_000_000, 40_000_000));
     ctx.par(st, "order/random-pairs", false, 0, npairs, |st, _, rng| {
         let a = rng.range_i64(MIN_DAY as i64, MAX_DAY as i64) as i32;
         let b = match rng.below(4) {
